@@ -3,7 +3,6 @@ package file
 
 import (
 	"fmt"
-	"strings"
 
 	"gopkg.in/sourcemap.v1"
 )
@@ -136,6 +135,33 @@ func (fl *File) Base() int {
 }
 
 // Position returns the position at idx or nil if not valid.
+// lineCount returns the number of ECMAScript line terminators in str (LF, CR,
+// CR LF counting once, U+2028, U+2029) and the index of the last byte of the
+// last one, or -1. It matches the line counting of the parser.
+func lineCount(str string) (int, int) {
+	line, last := 0, -1
+	pair := false
+	for index, chr := range str {
+		switch chr {
+		case '\r':
+			line++
+			last = index
+			pair = true
+			continue
+		case '\n':
+			if !pair {
+				line++
+			}
+			last = index
+		case '\u2028', '\u2029':
+			line++
+			last = index + 2
+		}
+		pair = false
+	}
+	return line, last
+}
+
 func (fl *File) Position(idx Idx) *Position {
 	position := &Position{}
 
@@ -149,10 +175,11 @@ func (fl *File) Position(idx Idx) *Position {
 
 	position.Filename = fl.name
 	position.Offset = offset
-	position.Line = strings.Count(src, "\n") + 1
+	line, last := lineCount(src)
+	position.Line = line + 1
 
-	if index := strings.LastIndex(src, "\n"); index >= 0 {
-		position.Column = offset - index
+	if last >= 0 {
+		position.Column = offset - last
 	} else {
 		position.Column = len(src) + 1
 	}
